@@ -167,3 +167,37 @@ Example C14_example_cyclic :
               [(0, 0); (1, 2); (1, 0)] [] =
   Ok [(3, 0, []); (2, 1, []); (3, 0, [])].
 Proof. vm_compute. reflexivity. Qed.
+
+(* ============================================================================================ *)
+(* The model IS the source, re-established on every run.                                          *)
+(* `neatverif translate depthbodies` (harness/c14_translate.go) parses neat/network/nnode.go and   *)
+(* network.go with go/ast and prints the bodies of NNode.IsSensor, NNode.Depth and                 *)
+(* Network.MaxActivationDepthWithCap, construct by construct, as gen/DepthBodies.v (a node pointer *)
+(* is its id, a link the pair of its end ids, the field `visited` of all nodes the list of marked  *)
+(* ids; the recursion a Fixpoint on fuel, a range loop a fold whose body answers "go on" or        *)
+(* "return"); it fails on a missing function or a construct outside its subset.                   *)
+(* The functions every theorem above is about are equal to the translated ones: for every network  *)
+(* (cyclic or not, dangling ids or not), every fuel, cap, node, depth argument and set of marks,   *)
+(* as results (value, error, marks afterwards), OutOfFuel / BadOracle included.                    *)
+(* ============================================================================================ *)
+From NeatModel Require DepthBodies DepthBodiesAgree.
+
+Theorem C14_model_is_the_translated_source :
+  (forall t : ntype, is_sensor t = DepthBodies.gen_is_sensor t) /\
+  (forall (g : net) (fuel : nat) (cap id d : Z) (vis : list Z),
+      depth g fuel cap id d vis = DepthBodies.gen_depth g fuel cap id d vis) /\
+  (forall (g : net) (cap : Z) (vis : list Z),
+      max_depth_cap g cap vis = DepthBodies.gen_max_depth_cap g cap vis).
+Proof. exact DepthBodiesAgree.model_is_the_translated_source. Qed.
+Print Assumptions C14_model_is_the_translated_source.
+
+(* the translated functions on the examples above: the capped query that leaves no mark, then the full depth;
+   the cyclic network; an output id that names no node is BadOracle, not a default *)
+Example C14_ex_translated :
+  DepthBodies.gen_max_depth_cap c14_ex 1 [] = Ok (1, ErrDepthExceeded, []) /\
+  DepthBodies.gen_max_depth_cap c14_ex 0 [] = Ok (3, NoErr, []) /\
+  DepthBodies.gen_max_depth_cap
+    (mk_net [(1, 1); (2, 0); (3, 0); (4, 2)] [1] [4] [(1, 2); (2, 3); (3, 2); (3, 4); (4, 4)] 0) 0 [] = Ok (3, NoErr, []) /\
+  DepthBodies.gen_depth c14_ex 6 0 5 0 [] = Ok (3, NoErr, []) /\
+  DepthBodies.gen_max_depth_cap (mk_net [(1, 1); (2, 0); (3, 0)] [1] [7] [] 0) 0 [] = BadOracle.
+Proof. vm_compute. repeat split; reflexivity. Qed.
